@@ -105,6 +105,7 @@ func nodeCommon(cr *CheckRun) []string {
 	cr.owner = func(string) bool { return false } // the FSM graph is only used to obtain reachable states here
 	g := exploreFSM(cr, 2, false)
 	cr.owner = saved
+	cr.graph = g
 	reps := representatives(cr, g)
 	cr.bounds["round_states"] = fmt.Sprintf("%d abstract round states (n=2; quick: one for each of 8 key FSM states (await/cancelled states of each machine), thorough: all %d of the n=2 fixpoint), each with symbolic stored data", len(reps), len(g.States))
 	cr.bounds["message"] = "event: every public event + signature_reconstructed + signature_reconstruction_failed + unknown; payload: the request type of the event (and of every same-typed other event) with all numeric/byte/time fields symbolic, batch and message ids chosen among {current, other, empty} constants (unbounded symbolic strings are covered at FSM level), no baked ranges; sender: each participant, a stranger, empty; signature: arbitrary bytes or genuine; round id: this round, another live round, unseen"
@@ -237,6 +238,35 @@ func init() {
 				}
 			}
 		}
+		// every phase change of the n=2 graph (an accepted event that moves the round to another FSM state: phase completions,
+		// which build the per-participant lists handed to operations, and cancellations), from EVERY abstract state it occurs in
+		done := map[string]bool{}
+		for _, a := range reps {
+			for _, ev := range fsmEvents {
+				done[a+"|"+ev] = true
+			}
+		}
+		phase := 0
+		for _, e := range cr.graph.Edges {
+			if !e.Accepted || strings.HasPrefix(e.From, "__idle") || absState(e.From) == absState(e.To) || done[e.From+"|"+e.Event] {
+				continue
+			}
+			done[e.From+"|"+e.Event] = true
+			phase++
+			jobs = append(jobs, Job{Pkg: nodePkg, Fn: "VF_C08_Interleave", Opts: opts, Tag: "interleave state=" + e.From + " event=" + e.Event,
+				Case:   "interleave state=" + absState(e.From) + " event=" + e.Event,
+				Params: map[string]string{"abs": e.From, "event": e.Event, "norange": "1", "maxn": "2", "tag": fmt.Sprintf("c08_%d", len(jobs))}})
+			for _, perm := range []string{"", "1"} {
+				tag := "clock"
+				if perm == "1" {
+					tag = "maporder"
+				}
+				jobs = append(jobs, Job{Pkg: nodePkg, Fn: "VF_C08_Determinism", Opts: opts, Tag: tag + " state=" + e.From + " event=" + e.Event,
+					Case:   tag + " state=" + absState(e.From) + " event=" + e.Event,
+					Params: map[string]string{"abs": e.From, "event": e.Event, "permute": perm, "permute_mode": pmode, "norange": "1", "maxn": "2", "tag": fmt.Sprintf("c08_%d", len(jobs))}})
+			}
+		}
+		cr.bounds["phase_changes"] = fmt.Sprintf("%d (state, event) pairs of the n=2 graph whose accepted edge changes the FSM state, each from the abstract state it occurs in", phase)
 		res := cr.Pool.Run(jobs)
 		cr.absorb(jobs, res)
 		cr.states = len(reps)
